@@ -24,3 +24,9 @@ def c06_content_beyond_sender_gap_stashed(info):
     fholes = {c for c, _, _ in f.get("holes", [])}
     pend = {tuple(x) for x in t.get("pend", [])}
     return all(m in pend and m[0] in fholes and m[1] >= fsv.get(m[0], 0) for m in missing)
+
+
+try:
+    from wire_patterns import *  # noqa: F401,F403  (patterns of the wire engine)
+except ImportError:
+    pass
